@@ -30,6 +30,9 @@ type step struct {
 	T string         `json:"t"`
 	A string         `json:"a"`
 	X map[string]int `json:"x"`
+	// arrive only: the thread runs up to its next real yield point (the Lock of its critical section) and parks there
+	// without being granted it: code the library executes before taking the lock runs early
+	Arr bool `json:"arr"`
 }
 
 type script struct {
@@ -168,6 +171,13 @@ func runScript(engine *nbhttp.Engine, sc *script, sum *summary) {
 	stuck := false
 	for i, st := range sc.Steps {
 		sum.Steps++
+		if st.Arr {
+			if err := s.PassAllTransparent(st.T); err != nil {
+				stuck = true
+				break
+			}
+			continue
+		}
 		_, err := s.Step(st.T)
 		if err != nil {
 			if _, ok := err.(vrt.ErrStuck); ok {
